@@ -1,6 +1,6 @@
 (* C14/Property.v — property C14 (stored configuration images), theorems only.
    Each is closed by `exact <lemma>` and followed by Print Assumptions. *)
-From CF Require Import Common.Bytes C14.Model C14.Model_lh C14.Model_misc C14.Proofs_i2c C14.Proofs_ow C14.Proofs_lh C14.Proofs_misc C14.Model_hist C14.Proofs_hist C14.Model_seq C14.Proofs_seq.
+From CF Require Import Common.Bytes C14.Model C14.Model_lh C14.Model_misc C14.Proofs_i2c C14.Proofs_ow C14.Proofs_lh C14.Proofs_misc C14.Model_hist C14.Proofs_hist C14.Model_seq C14.Proofs_seq C14.Model_loco C14.Proofs_loco.
 Open Scope Z_scope.
 
 (* ------------------------------------------------------------------ EEPROM radio configuration *)
@@ -252,9 +252,10 @@ Theorem C14_anchor_id_list_loco2 : forall ids pad, (length ids <= 16)%nat -> len
 Proof. exact loco2_id_list. Qed.
 Print Assumptions C14_anchor_id_list_loco2.
 
-(* a count above 16 cannot be served from the 17 bytes read: IndexError, ids_valid stays False *)
+(* a count byte above 16: exactly the 16 ids that were read are taken, nr_of_anchors = 16, no exception
+   (repaired behaviour, /repo 5b679e8) *)
 Theorem C14_anchor_id_list_loco2_overflow : forall n rest, 16 < n -> length rest = 16%nat ->
-  loco2_ids (n :: rest) = IL_IndexError rest.
+  loco2_ids (n :: rest) = IL_Ok rest.
 Proof. exact loco2_id_list_overflow. Qed.
 Print Assumptions C14_anchor_id_list_loco2_overflow.
 
@@ -432,3 +433,57 @@ Theorem C14_read_all_sequence : forall k devr,
   a1 ++ tr = map (RRead k) (zseq 0 16) ++ [RCallback (read_all_expected k devr (zseq 0 16))] /\ s2 = rds_idle.
 Proof. exact read_all_closed_form. Qed.
 Print Assumptions C14_read_all_sequence.
+
+(* ------------------------------------------------------------------ anchor-list histories on one LocoMemory2 object
+   update_id_list / update_active_id_list / update_data in any order and number, the device changing or not in
+   between.  The parsed lists are values: each field is written only by the step that owns it. *)
+
+(* update_id_list: anchor_ids is the decode of the 17 bytes it read, nr_of_anchors its length, ids_valid set; the
+   active list and the anchor data are emptied, data_valid cleared *)
+Theorem C14_loco2_id_list_step : forall s d s' d' rq, l2_step s d LIds = Some (s', d', rq) ->
+  loco2_ids (dv_idl d) = IL_Ok (l2_ids s') /\ l2_nr s' = Z.of_nat (length (l2_ids s')) /\ l2_idsv s' = true /\
+  l2_act s' = [] /\ l2_data s' = [] /\ l2_datav s' = false /\ l2_actv s' = l2_actv s /\ rq = [(0, 17)] /\ d' = d.
+Proof. exact l2_ids_step. Qed.
+Print Assumptions C14_loco2_id_list_step.
+
+(* update_data: the anchors are the decode of the pages of exactly the parsed ids (requests in list order), and the
+   fetch changes none of anchor_ids, active_anchor_ids, nr_of_anchors, ids_valid, active_ids_valid *)
+Theorem C14_loco2_data_step_frame : forall s d s' d' rq, l2_step s d LData = Some (s', d', rq) ->
+  l2_ids s' = l2_ids s /\ l2_act s' = l2_act s /\ l2_nr s' = l2_nr s /\ l2_idsv s' = l2_idsv s /\ l2_actv s' = l2_actv s /\
+  (0 < l2_nr s -> loco2_data (l2_ids s) (dv_pages d) [] [] = Some (rq, l2_data s') /\ l2_datav s' = true) /\
+  (l2_nr s <= 0 -> s' = s /\ rq = []).
+Proof. exact l2_data_step. Qed.
+Print Assumptions C14_loco2_data_step_frame.
+
+Theorem C14_loco2_active_list_step_frame : forall s d s' d' rq, l2_step s d LAct = Some (s', d', rq) ->
+  loco2_ids (dv_act d) = IL_Ok (l2_act s') /\ l2_actv s' = true /\
+  l2_ids s' = l2_ids s /\ l2_nr s' = l2_nr s /\ l2_idsv s' = l2_idsv s /\ l2_data s' = l2_data s /\ l2_datav s' = l2_datav s.
+Proof. exact l2_act_step. Qed.
+Print Assumptions C14_loco2_active_list_step_frame.
+
+(* for every history: after update_id_list, whatever follows short of another update_id_list (any number of
+   update_data / update_active_id_list rounds, any device changes) leaves anchor_ids, nr_of_anchors and ids_valid
+   exactly as that read produced them; and nr_of_anchors is the length of anchor_ids after every history *)
+Theorem C14_loco2_parsed_ids_are_values : forall ops s d s' d', forallb not_ids ops = true -> l2_run s d ops = Some (s', d') ->
+  l2_ids s' = l2_ids s /\ l2_nr s' = l2_nr s /\ l2_idsv s' = l2_idsv s.
+Proof. exact l2_ids_persist. Qed.
+Print Assumptions C14_loco2_parsed_ids_are_values.
+
+Theorem C14_loco2_nr_is_length : forall ops s d s' d', l2_inv s -> l2_run s d ops = Some (s', d') -> l2_inv s'.
+Proof. exact l2_run_inv. Qed.
+Print Assumptions C14_loco2_nr_is_length.
+
+(* refutation example (seed C14-g): a fetch queue aliased to the parsed id list drains anchor_ids during update_data
+   while nr_of_anchors / ids_valid still announce the anchors *)
+Theorem C14_loco2_aliased_fetch_queue_refuted :
+  match l2_step l2_init g_dev LIds with
+  | Some (s1, d1, _) =>
+    match l2_step s1 d1 LData, l2_step_aliased s1 d1 LData with
+    | Some (s2, _, _), Some (s2', _, _) =>
+      l2_ids s2 = [3; 7; 42; 200] /\ l2_ids s2' = [] /\ l2_nr s2' = 4 /\ l2_idsv s2' = true /\ l2_data s2' = l2_data s2
+    | _, _ => False
+    end
+  | None => False
+  end.
+Proof. exact l2_aliased_queue_refuted. Qed.
+Print Assumptions C14_loco2_aliased_fetch_queue_refuted.
